@@ -111,6 +111,18 @@ def spellings(canon):
         more.add(c.title())
         more.add(c.replace('_', '').replace('-', ''))
     cands |= more
+    # Python folds every run of non-alphanumeric characters (except '.')
+    # into one separator: "utf--16", "utf-_16", "utf/16" name the same codec
+    seps = set()
+    for c in list(cands):
+        m = re.search(r'[-_]', c)
+        if m:
+            for rep in ('--', '__', '-_', '_-', '/', '-/-'):
+                seps.add(c[:m.start()] + rep + c[m.end():])
+            last = c.rfind('_') if c.rfind('_') > c.rfind('-') else c.rfind('-')
+            if last != m.start():
+                seps.add(c[:last] + '--' + c[last + 1:])
+    cands |= seps
     out = []
     for c in sorted(cands):
         if not VALUE_RE.match(c):
